@@ -1666,6 +1666,7 @@ def propagate_consts(text):
     if not defs:
         return text
     value = {}                                            # index of def -> literal text
+    length = {}                                           # index of def -> number of bytes (byte constants)
 
     def visible(i, pos):
         a, b = defs[i][4]
@@ -1708,8 +1709,13 @@ def propagate_consts(text):
             if before.endswith("::") and m.group(0) == m.group(1):
                 continue
             out.append(fragment[last:m.start()])
-            out.append(value[i])
-            last = m.end()
+            ml = re.match(r"\s*\.\s*len\(\)", after)
+            if ml and i in length:
+                out.append(str(length[i]))
+                last = m.end() + ml.end()
+            else:
+                out.append(value[i])
+                last = m.end()
         out.append(fragment[last:])
         return "".join(out)
     for _ in range(6):
@@ -1725,6 +1731,10 @@ def propagate_consts(text):
             lit = _render_const(resolved, text)
             if lit is not None:
                 value[i] = lit
+                try:
+                    length[i] = len(byte_string(lit))        # NAME.len() of a byte constant is a number too
+                except (ValueError, KeyError, IndexError):
+                    pass
                 progressed = True
         if not progressed:
             break
